@@ -65,6 +65,9 @@ CONFIGS = {
     "K31": dict(lend=dict(req="0.5", isym="USD", period=10, minint=1, req_by_symbol={"BTC": "0"}), fee=("0.25", 500), liq=None,
                 init=(("USD", 100),), bp=0, qp=2),
     # interest on every loan charged in BTC: for a USD loan the conversion goes through the inverse of BTC/USD
+    # a NEGATIVE initial balance (a debt the account starts with, behind which there is no loan) next to margin loans in the
+    # same symbol: only the ledger oracle of C01 is meaningful here (C02's borrowed = open loans excludes it by construction)
+    "K38": dict(lend=dict(req="0.5", isym="USD", period=10), fee=None, liq=None, init=(("USD", 1000), ("BTC", -1)), bp=0, qp=2),
     # flat interest charged in USD, and a symbol (ETH) that needs no collateral: a loan of ETH before ETH/USD ever traded passes
     # the margin rule, but its interest cannot be priced yet
     "K37": dict(lend=dict(req="0.5", isym="USD", period=0, req_by_symbol={"ETH": "0"}), fee=None, liq=None, init=(("USD", 300),),
@@ -82,7 +85,7 @@ CONFIGS = {
 
 
 
-PURPOSE_BUILT = {"K35", "K36", "K37", "K23", "K24", "K25", "K26", "K27", "K28", "K29", "K30", "K31", "K33", "K34"}
+PURPOSE_BUILT = {"K35", "K36", "K37", "K38", "K23", "K24", "K25", "K26", "K27", "K28", "K29", "K30", "K31", "K33", "K34"}
 
 
 def thorough_spec(quick, focus, cross=False, exclude=()):
